@@ -11,7 +11,12 @@ import spfiles
 from .base import Prop, exc_name
 from .c05 import C05
 
-DT = {"uint8": np.uint8, "uint16": np.uint16, "int64": np.int64, "float32": np.float32, "float64": np.float64}
+DT = {"uint8": np.uint8, "uint16": np.uint16, "int64": np.int64, "float32": np.float32, "float64": np.float64,
+      # same item width as a file sample type but another type / byte order: still "converted or refused"
+      "int32": np.int32, "uint32": np.uint32, "int16": np.int16, ">f4": np.dtype(">f4"), ">u2": np.dtype(">u2"),
+      ">f8": np.dtype(">f8")}
+# the exact model knows integer / float32 / float64 arrays: what each extra dtype is to it
+MODEL_DT = {"int32": "int64", "uint32": "int64", "int16": "int64", ">f4": "float32", ">u2": "uint16", ">f8": "float64"}
 ITEM = {1: 1, 2: 1, 4: 1, 8: 1, 16: 2, 32: 4}
 
 
@@ -51,12 +56,12 @@ class C04(Prop):
         # in-memory layout of each chunk handed to cwrite (>= 8 bit only: the packers take contiguous 1-D input):
         # flat 1-D, strided 1-D view, C-ordered (k, C) matrix, transposed view of a (C, k) matrix
         layout = rng.choice(("flat", "flat", "strided", "2d", "T")) if nbits >= 8 else "flat"
-        vals = values_for(rng, n * C, min(nbits, 8) if dt == "uint8" else nbits)
-        if nbits == 32 and dt in ("int64", "float32", "float64") and rng.random() < 0.6:
+        vals = values_for(rng, n * C, min(nbits, 8) if dt == "uint8" else min(nbits, 15) if dt == "int16" else nbits)
+        if nbits == 32 and dt in ("int64", "int32", "float32", "float64", ">f4", ">f8") and rng.random() < 0.6:
             # a 32-bit file holds float32: every float32-representable value must survive, negative ones and
             # (from float arrays) fractional ones included
             vals = [rng.randrange(-5000, 5000) for _ in range(n * C)]
-            if dt != "int64":
+            if dt not in ("int64", "int32"):
                 vals = [v / 8 for v in vals]
         # how the output depth is requested: the source header already has it / `nbits=` argument / only through
         # `updates={"nbits": …}` / `nbits=` argument contradicting an `updates` entry (the argument is the depth of
@@ -101,7 +106,7 @@ class C04(Prop):
                 c = self._fil_case(rng)
                 cm = {1: 8, 2: 4, 4: 2}.get(nbits, 1)
                 c.update(nbits=nbits, C=cm, dtype=dt, n=3, parts=[2, 1], layout="flat" if nbits < 8 else c["layout"],
-                         vals=values_for(rng, 3 * cm, min(nbits, 8) if dt == "uint8" else nbits))
+                         vals=values_for(rng, 3 * cm, min(nbits, 8) if dt == "uint8" else min(nbits, 15) if dt == "int16" else nbits))
                 cases.append(c)
         cases += [self._block_case(rng) for _ in range(30 * k)]
         for kind in ("tim", "dat", "spec", "fft"):
@@ -308,7 +313,7 @@ class C04(Prop):
         else:
             vals = " ".join(str(v) for v in case["vals"])
             op = "cwrite"
-        reqs = [f"C04 {op} {case['nbits']} {case['dtype']} {case['C']} {len(case['parts'])} {parts} "
+        reqs = [f"C04 {op} {case['nbits']} {MODEL_DT.get(case['dtype'], case['dtype'])} {case['C']} {len(case['parts'])} {parts} "
                 f"{len(case['vals'])} {vals}"]
         if "file" in obs and obs.get("werr") is None:
             reqs.append(f"C04 readfil {obs['file']}")
